@@ -14,8 +14,10 @@ import (
 // Alphabets (DESIGN 4.3). The first symbols are the ones kept when the alphabet
 // has to shrink for deep tries: they always contain a tie and, where allowed, a zero.
 var (
-	sigmaPlain    = []float64{1, 0, 2, -3, 5}
-	sigmaPlainPos = []float64{1, 2, 3, 6}
+	// 0.1 is not a dyadic rational: sums of squares of it do not cancel exactly, which exposes
+	// numerically unstable rewrites (variance as E[x^2]-E[x]^2) on flat runs
+	sigmaPlain    = []float64{1, 0, 0.1, 2, -3, 5}
+	sigmaPlainPos = []float64{1, 0.1, 2, 3, 6}
 	// bars: O, H, L, C, V with L <= O,C <= H, V >= 0
 	sigmaBars = [][5]float64{
 		{4, 6, 3, 5, 10}, // up bar
@@ -335,7 +337,13 @@ func indTrieUnit(c *core.Ctx, e *cat.Ind, cfg []float64, prop string) {
 					continue
 				}
 				compared++
-				if msg := e.Range(cfg, nd.in, p, vals); msg != "" {
+				msg := e.Range(cfg, nd.in, p, vals)
+				for j, v := range vals {
+					if msg == "" && (math.IsNaN(v) || math.IsInf(v, 0)) {
+						msg = fmt.Sprintf("output %d is %v where the defining denominator is not zero", j, v)
+					}
+				}
+				if msg != "" {
 					key := ""
 					if e.RangeKnown != nil {
 						key = e.RangeKnown(cfg, nd.in, p, vals)
